@@ -574,10 +574,11 @@ def correspond_entities(ctx):
         ctx.count("S1 spec on real code", line, wf == "1")
         ctx.hist("S1 spec on real code", f"{kind}:wf={wf},ordered={ordered}")
         rep = {"op": "entity", "tags": tags, "alive": alive}
-        if kind in ("ordered", "shuffled") and wf != "1":
-            raise ValueError(f"generator/spec mismatch: {kind} entity is not EntityWF: {tags}")
-        if kind == "ordered" and ordered != "1":
-            raise ValueError(f"generator/spec mismatch: ordered entity is not BaseOrdered: {tags}")
+        if (kind in ("ordered", "shuffled") and wf != "1") or (kind == "ordered" and ordered != "1"):
+            # the generator builds these classes by construction: the specification (tables regenerated from the source) rejects them
+            ctx.disagree("S1 spec on real code", "spec" + enc_tags(tags)[:1500], f"generated as {kind}", f"EntityWF={wf} BaseOrdered={ordered}")
+        if kind == "ordered" and r1 != "ok " + enc_tags(tags):
+            ctx.fail(f"storage/identity/{tags[:5]}", f"well-formed entity in ezdxf's order changed by load->save: {tags} -> {r1[:300]}", rep)
         if wf == "1":
             nwf += 1
             if r1 != "ok " + canon:
@@ -600,3 +601,1019 @@ def is_pointer(code: int) -> bool:
     from ezdxf.lldxf import types
 
     return types.is_pointer_code(code) or code in types.HANDLE_CODES
+
+
+# ------------------------------------------------------------------ whole files: base documents, tag-level splicing, comparison
+VERSIONS = ["AC1015", "AC1018", "AC1021", "AC1024", "AC1027", "AC1032"]  # R2000 .. R2018
+_BASE_CACHE: dict = {}
+
+
+def _import_dxfparse():
+    import dxfparse
+
+    return dxfparse
+
+
+def base_doc(ver: str):
+    """a valid minimal document made by ezdxf.new() + write(), parsed by the harness-owned parser into sections/records.
+    Hosts for foreign data: LINE/MTEXT/INSERT+ATTRIB in the modelspace, a LINE in block FB, layer L1, DICTIONARY FOREIGN_DICT,
+    a second (non active) paperspace layout."""
+    if ver in _BASE_CACHE:
+        return _BASE_CACHE[ver]
+    import ezdxf
+
+    dxfparse = _import_dxfparse()
+    ezdxf.options.write_fixed_meta_data_for_testing = True
+    doc = ezdxf.new(ver)
+    for a in APPIDS:
+        if a not in doc.appids:
+            doc.appids.add(a)
+    doc.layers.add("L1")
+    blk = doc.blocks.new("FB")
+    blk.add_line((0, 0), (1, 1))
+    msp = doc.modelspace()
+    line = msp.add_line((0, 0), (2, 3))
+    mtext = msp.add_mtext("hello")
+    try:
+        msp.add_mtext_static_columns(["column one", "column two"], width=20, gutter_width=2, height=30)
+    except Exception:  # noqa  (API not available)
+        pass
+    ins = msp.add_blockref("FB", (1, 1))
+    ins.add_attrib("TAG1", "text", (0, 0))
+    fd = doc.rootdict.add_new_dict("FOREIGN_DICT")
+    second = doc.layouts.new("Second")
+    second.add_line((0, 0), (1, 0))
+    s = io.StringIO()
+    doc.write(s)
+    tags = dxfparse.parse_ascii(s.getvalue())
+    secs, problems = dxfparse.split_file(tags)
+    assert not problems, problems
+    info = {
+        "ver": ver,
+        "sections": secs,  # [(name, [records])]; HEADER: one pseudo record (0, <SECTION-TAGS>) + tags
+        "msp": doc.block_records.get("*Model_Space").dxf.handle,
+        "psp": doc.block_records.get("*Paper_Space").dxf.handle,
+        "psp2": second.block_record_handle,
+        "fb": blk.block_record_handle,
+        "line": line.dxf.handle,
+        "mtext": mtext.dxf.handle,
+        "insert": ins.dxf.handle,
+        "layer": doc.layers.get("L1").dxf.handle,
+        "fd": fd.dxf.handle,
+        "root": doc.rootdict.dxf.handle,
+        "seed": int(str(doc.entitydb.handles), 16) + 16,
+    }
+    _BASE_CACHE[ver] = info
+    return info
+
+
+def cval(code: int, v):
+    """canonical comparable value of a tag (float text through float(), integers through int(), binary as upper hex)"""
+    dxfparse = _import_dxfparse()
+    c = dxfparse._cls(code)
+    try:
+        if c == "d":
+            return float(v)
+        if c in ("h", "i", "q", "b"):
+            return int(float(v)) if ("." in str(v) or "e" in str(v).lower()) else int(v)
+        if c == "bin":
+            return str(v).upper()
+    except ValueError:
+        return ("?", v)
+    return v
+
+
+def ctags(rec):
+    return [(c, cval(c, v)) for c, v in rec]
+
+
+def flat(ctags_compiled):
+    """compiled tags -> file level tags (points expanded)"""
+    out = []
+    for c, v in ctags_compiled:
+        if c in POINTS or c in XD_POINT:
+            for i, x in enumerate(v.split(",")):
+                out.append((c + 10 * i, x))
+        else:
+            out.append((c, v))
+    return out
+
+
+class Splice:
+    """builds one input file from a base document and generated foreign content; remembers what must survive"""
+
+    def __init__(self, rng, ver, **knobs):
+        self.rng = rng
+        self.base = base_doc(ver)
+        self.ver = ver
+        self.next = self.base["seed"]
+        self.knobs = knobs
+        # working copy: section name -> list of records (lists of (code, str))
+        self.secs = [(n, [list(r) for r in recs]) for n, recs in self.base["sections"]]
+        self.new_objects = []      # records appended to OBJECTS
+        self.expect = []           # (kind, key, data)
+        self.pool = [self.base[k] for k in ("line", "mtext", "fd", "root", "layer")]   # handles that exist
+        self.notes = []
+
+    def H(self) -> str:
+        self.next += self.rng.randint(1, 3)
+        return "%X" % self.next
+
+    def sec(self, name):
+        for n, recs in self.secs:
+            if n == name:
+                return recs
+        raise KeyError(name)
+
+    def find(self, handle):
+        dxfparse = _import_dxfparse()
+        for n, recs in self.secs:
+            for r in recs:
+                if dxfparse.rec_handle(r) == handle:
+                    return n, r
+        raise KeyError(handle)
+
+    # ---------------------------------------------------------------- foreign structures
+    def base_structures(self, owner_of_xdict: str, allow_xdict=True):
+        """application groups, extension dictionary (+ DICTIONARY and XRECORD objects), reactors: in ezdxf's order"""
+        rng = self.rng
+        out = []
+        for n in rng.sample(GROUP_NAMES, rng.choice([0, 0, 1, 1, 2, 3])):
+            out += flat([t for t in app_group(rng, n) if t[0] not in (5, 105)])
+        if allow_xdict and rng.random() < 0.45:
+            dh, xh = self.H(), self.H()
+            payload = [t for t in body_tags(rng, rng.randint(1, 8)) if t[0] not in (5, 105, 101, 102)]
+            if rng.random() < self.knobs.get("xrecord100", 0.1):
+                # group code 100 is a legal XRECORD payload code (1..369 except 5 and 105)
+                payload.insert(rng.randint(0, len(payload)), (100, rng.choice(["AcmeMarker", "x"])))
+            payload = flat(payload)
+            self.new_objects.append([(0, "DICTIONARY"), (5, dh), (330, owner_of_xdict), (100, "AcDbDictionary"), (280, "1"), (281, "1"),
+                                     (3, "FOREIGN_DATA"), (360, xh)])
+            xrec = [(0, "XRECORD"), (5, xh), (330, dh), (100, "AcDbXrecord"), (280, "1")] + payload
+            self.new_objects.append(xrec)
+            self.expect.append(("xrecord", xh, xrec))
+            self.expect.append(("dict-entry", dh, ("FOREIGN_DATA", xh)))
+            out += [(102, "{ACAD_XDICTIONARY"), (360, dh), (102, "}")]
+        if rng.random() < 0.45:
+            hs = sorted(set(rng.sample(self.pool, rng.randint(1, min(3, len(self.pool))))), key=lambda x: int(x, 16))
+            out += [(102, "{ACAD_REACTORS")] + [(330, h) for h in hs] + [(102, "}")]
+        return out
+
+    def xdata(self, n=None):
+        rng = self.rng
+        out = []
+        for a in rng.sample(APPIDS, n if n is not None else rng.choice([0, 1, 1, 2, 3])):
+            out += flat(xdata_group(rng, a))
+        return out
+
+    def foreign_record(self, typ, owner, graphic: bool, paperspace=False, shuffle=False):
+        rng = self.rng
+        h = self.H()
+        head = [(0, typ), (5, h)]
+        mid = self.base_structures(h)
+        tail = [(330, owner)]
+        if shuffle:
+            # another application's order: owner first / handle last, groups in any order, reactors unsorted
+            groups, cur = [], None
+            for t in mid:
+                if cur is None:
+                    cur = [t]
+                else:
+                    cur.append(t)
+                    if t == (102, "}"):
+                        groups.append(cur)
+                        cur = None
+            for g in groups:
+                if g[0][1] == "{ACAD_REACTORS":
+                    inner = g[1:-1]
+                    rng.shuffle(inner)
+                    g[1:-1] = inner
+            items = [[(5, h)]] + groups + [[(330, owner)]]
+            rng.shuffle(items)
+            base = [(0, typ)] + [t for it in items for t in it]
+        else:
+            base = head + mid + tail
+        subs = []
+        if graphic:
+            ent = [(100, "AcDbEntity")]
+            if paperspace:
+                ent.append((67, "1"))
+            ent.append((8, rng.choice(["0", "L1"])))
+            if rng.random() < 0.3:
+                ent.append((62, str(rng.randint(1, 255))))
+            subs += ent
+        for _ in range(rng.choice([1, 1, 2, 3]) if graphic else rng.choice([0, 1, 1, 2, 3])):
+            name = rng.choice([s for s in SUBCLASS_NAMES if s != "AcDbEntity"])
+            subs += [(100, name)] + flat(body_tags(rng, rng.randint(0, 8)))
+        emb = []
+        if rng.random() < 0.2:
+            emb = [(101, "Embedded Object")] + flat([t for t in body_tags(rng, rng.randint(0, 5)) if t[0] != 101])
+        rec = base + subs + emb + self.xdata()
+        self.expect.append(("record", h, rec))
+        self.pool.append(h)
+        return rec
+
+    def proxy_entity(self, owner):
+        rng = self.rng
+        h = self.H()
+        data = "".join("%02X" % rng.randrange(256) for _ in range(rng.choice([4, 127, 130, 300])))
+        chunks = [data[i:i + 254] for i in range(0, len(data), 254)]
+        rec = [(0, "ACAD_PROXY_ENTITY"), (5, h)] + self.base_structures(h) + [(330, owner), (100, "AcDbEntity"), (8, "0"),
+               (100, "AcDbProxyEntity"), (90, "498"), (91, str(rng.randint(500, 600))), (95, "33"), (70, "0"),
+               (92, str(len(data) // 2))] + [(310, c) for c in chunks] + [(93, str(rng.randint(0, 4096)))] + \
+              [(310, "".join("%02X" % rng.randrange(256) for _ in range(rng.randint(1, 60))))] + \
+              [(c, rng.choice(self.pool)) for c in rng.sample([330, 340, 350, 360], rng.randint(0, 3))] + [(94, "0")] + self.xdata()
+        self.expect.append(("record", h, rec))
+        return rec
+
+    def proxy_object(self, owner):
+        rng = self.rng
+        h = self.H()
+        rec = [(0, "ACAD_PROXY_OBJECT"), (5, h)] + self.base_structures(h) + [(330, owner), (100, "AcDbProxyObject"), (90, "499"),
+               (91, str(rng.randint(500, 600))), (95, "33"), (70, "0"), (93, str(rng.randint(8, 4096)))] + \
+              [(310, "".join("%02X" % rng.randrange(256) for _ in range(rng.randint(1, 127)))) for _ in range(rng.randint(1, 3))] + \
+              [(c, rng.choice(self.pool)) for c in rng.sample([330, 340, 350, 360], rng.randint(0, 3))] + [(94, "0")] + self.xdata()
+        self.expect.append(("record", h, rec))
+        self.pool.append(h)
+        return rec
+
+    # ---------------------------------------------------------------- where it goes
+    def add_entities(self):
+        rng, b = self.rng, self.base
+        ents = self.sec("ENTITIES")
+        new = []
+        for _ in range(rng.randint(1, 4)):
+            typ = rng.choice([t for t in FOREIGN_TYPES if t != "ACAD_PROXY_OBJECT"])
+            new.append(self.foreign_record(typ, b["msp"], True, shuffle=rng.random() < self.knobs.get("shuffle", 0.2)))
+        if rng.random() < 0.6:
+            new.append(self.proxy_entity(b["msp"]))
+        for r in new:
+            if self.knobs.get("mix", True):
+                # not between an INSERT / POLYLINE and its ATTRIB / VERTEX / SEQEND records
+                ok = [i for i in range(len(ents) + 1) if i == len(ents) or ents[i][0][1] not in ("ATTRIB", "VERTEX", "SEQEND")]
+                ents.insert(rng.choice(ok), r)
+            else:
+                ents.append(r)
+        # paperspace entities of the active layout: written behind the modelspace entities
+        for _ in range(rng.choice([0, 0, 1, 2])):
+            ents.append(self.foreign_record(rng.choice(FOREIGN_TYPES[:4]), b["psp"], True, paperspace=True))
+
+    def add_block_entities(self):
+        rng, b = self.rng, self.base
+        dxfparse = _import_dxfparse()
+        recs = self.sec("BLOCKS")
+        for target, key in (("FB", "fb"), ("*Paper_Space0", "psp2")):
+            if rng.random() < 0.7:
+                idx = next(i for i, r in enumerate(recs) if dxfparse.rec_type(r) == "BLOCK" and (2, target) in r)
+                end = next(i for i in range(idx, len(recs)) if dxfparse.rec_type(recs[i]) == "ENDBLK")
+                for _ in range(rng.randint(1, 3)):
+                    recs.insert(rng.randint(idx + 1, end), self.foreign_record(rng.choice(FOREIGN_TYPES[:4]), b[key], True,
+                                                                               paperspace=(key == "psp2")))
+                    end += 1
+
+    def add_objects(self):
+        rng, b = self.rng, self.base
+        new = []
+        for _ in range(rng.randint(1, 4)):
+            typ = rng.choice(FOREIGN_TYPES)
+            if typ == "ACAD_PROXY_OBJECT":
+                r = self.proxy_object(b["fd"])
+            else:
+                r = self.foreign_record(typ, b["fd"], False, shuffle=rng.random() < self.knobs.get("shuffle", 0.2))
+            new.append(r)
+        # entries of FOREIGN_DICT pointing to the foreign objects (a known object referring to unknown ones)
+        _, fd = self.find(b["fd"])
+        for i, r in enumerate(new):
+            fd += [(3, f"KEY{i}"), (350, r[1][1] if r[1][0] == 5 else next(v for c, v in r if c == 5))]
+            self.expect.append(("dict-entry", b["fd"], (f"KEY{i}", fd[-1][1])))
+        self.new_objects += new
+
+    def decorate_hosts(self):
+        """XDATA, application groups, extension dictionaries and reactors on entities ezdxf implements"""
+        rng, b = self.rng, self.base
+        dxfparse = _import_dxfparse()
+        hosts = [b[key] for key in ("line", "layer", "fd", "mtext", "insert") if rng.random() < 0.6]
+        # any other record ezdxf implements: table heads and entries, BLOCK/ENDBLK, BLOCK_RECORD, ATTRIB, SEQEND, LAYOUT, ...
+        others = []
+        for n, recs in self.secs:
+            if n in ("TABLES", "BLOCKS", "ENTITIES", "OBJECTS"):
+                for r in recs:
+                    h = dxfparse.rec_handle(r)
+                    if h is not None and h not in hosts and not any(k == "record" and dxfparse.norm(kk) == h for k, kk, _ in self.expect):
+                        others.append(h)
+        hosts += rng.sample(others, min(len(others), self.knobs.get("other_hosts", 3)))
+        for hh in hosts:
+            _, r = self.find(hh)
+            if any(c in (1001,) for c, _ in r) or any(c == 102 for c, _ in split_base(r)[0]):
+                continue  # already carries XDATA / groups written by ezdxf itself
+            i = next(k for k, t in enumerate(r) if t[0] in (5, 105)) + 1
+            groups = self.base_structures(hh)
+            r[i:i] = groups
+            xd = self.xdata(rng.choice([1, 2, 3]))
+            r += xd
+            self.expect.append(("host", hh, (groups, xd)))
+
+    def add_classes(self):
+        rng = self.rng
+        recs = self.sec("CLASSES")
+        for typ in rng.sample(FOREIGN_TYPES[:4] + ["MYOBJ"], rng.randint(1, 4)):
+            for cpp in rng.sample(["AcDb" + typ.title(), "Acme" + typ.title()], rng.choice([1, 1, 2])):
+                rec = [(0, "CLASS"), (1, typ), (2, cpp), (3, rng.choice(["AcmeApp|Version 1.0", "ObjectDBX Classes", "x"])),
+                       (90, str(rng.choice([0, 1, 1153, 4095, 32768])))]
+                if self.ver >= "AC1018":
+                    rec.append((91, str(rng.randint(0, 50))))
+                rec += [(280, str(rng.randint(0, 1))), (281, str(rng.randint(0, 1)))]
+                recs.insert(rng.randint(0, len(recs)), rec)
+                self.expect.append(("class", (typ, cpp), rec))
+
+    def add_header(self):
+        rng = self.rng
+        hdr = self.sec("HEADER")[0]  # [(0,<SECTION-TAGS>), (9,..), ...]
+        props = [(rng.choice(["Author", "Project", "K", "ä"]) + str(i), rng.choice(["me", "", "x y", "42", "€"])) for i in range(rng.randint(1, 4))]
+        tags = []
+        for k, v in props:
+            tags += [(9, "$CUSTOMPROPERTYTAG"), (1, k), (9, "$CUSTOMPROPERTY"), (1, v)]
+        mode = self.knobs.get("custom", "after-lastsavedby")
+        idx = next((i for i, t in enumerate(hdr) if t == (9, "$LASTSAVEDBY")), None)
+        if idx is None:
+            mode = "no-lastsavedby"   # R2000 has no $LASTSAVEDBY
+            hdr += tags
+        elif mode == "after-lastsavedby":
+            hdr[idx + 2:idx + 2] = tags
+        elif mode == "at-end":
+            hdr += tags
+        else:  # the application did not write $LASTSAVEDBY
+            del hdr[idx:idx + 2]
+            hdr += tags
+            mode = "no-lastsavedby"
+        self.expect.append(("custom", mode, props))
+        if rng.random() < self.knobs.get("unknown_var", 0.3):
+            name = rng.choice(["$ACMEVAR", "$FOREIGNSETTING"])
+            hdr += [(9, name), (rng.choice([70, 1, 40]), "1")]
+            self.expect.append(("header-var", name, None))
+
+    def add_sections(self):
+        rng = self.rng
+        names = rng.sample(["FOO", "ACME_DATA", "XYZSECTION", "THUMBNAILIMAGE"], rng.choice([0, 1, 1, 2, 3]))
+        extra = []
+        for n in names:
+            recs = []
+            head = [(0, "SECTION"), (2, n)]
+            if n == "THUMBNAILIMAGE":
+                head += [(90, "254")] + [(310, "".join("%02X" % rng.randrange(256) for _ in range(127))) for _ in range(2)]
+            else:
+                head += flat([t for t in body_tags(rng, rng.randint(0, 3)) if t[0] not in (101, 102)])
+                for _ in range(rng.randint(0, 4)):
+                    recs.append([(0, rng.choice(["ACMEREC", "FOOITEM", "X"]))] + flat(body_tags(rng, rng.randint(0, 8))))
+            extra.append((n, [head] + recs))
+            self.expect.append(("section", n, [t for r in [head] + recs for t in r]))
+        if self.ver >= "AC1027" and rng.random() < 0.4:
+            n = rng.randint(1, 2)
+            recs = [[(0, "ACDSSCHEMA"), (90, "0"), (1, "AcDb3DSolid_ASM_Data"), (2, "AcDbDs::ID"), (280, "10"), (91, "8"),
+                     (2, "ASM_Data"), (280, "15"), (91, "0"), (101, "ACDSRECORD"), (95, "0"), (90, "2")]]
+            for i in range(n):
+                data = "".join("%02X" % rng.randrange(256) for _ in range(127))
+                recs.append([(0, "ACDSRECORD"), (90, "0"), (2, "AcDbDs::ID"), (280, "10"), (320, rng.choice(self.pool)),
+                             (2, "ASM_Data"), (280, "15"), (94, "254"), (310, data), (310, data[::-1])])
+            head = [(0, "SECTION"), (2, "ACDSDATA"), (70, "2"), (71, str(n + 1))]
+            extra.append(("ACDSDATA", [head] + recs))
+            self.expect.append(("section", "ACDSDATA", [t for r in [head] + recs for t in r]))
+        self.extra_sections = extra
+
+    # ---------------------------------------------------------------- assemble
+    def build(self):
+        self.extra_sections = []
+        k = self.knobs
+        if k.get("entities", True):
+            self.add_entities()
+        if k.get("blocks", True):
+            self.add_block_entities()
+        if k.get("objects", True):
+            self.add_objects()
+        if k.get("hosts", True):
+            self.decorate_hosts()
+        if k.get("classes", True):
+            self.add_classes()
+        if k.get("header", True):
+            self.add_header()
+        if k.get("sections", True):
+            self.add_sections()
+        self.sec("OBJECTS").extend(self.new_objects)
+        # $HANDSEED above every handle
+        hdr = self.sec("HEADER")[0]
+        i = next(i for i, t in enumerate(hdr) if t == (9, "$HANDSEED"))
+        hdr[i + 1] = (5, "%X" % (self.next + 16))
+        tags = []
+        order = list(self.secs)
+        pos = self.knobs.get("section_pos", "end")
+        for n, recs in order:
+            if n == "HEADER":
+                tags += [(0, "SECTION"), (2, "HEADER")] + recs[0][1:] + [(0, "ENDSEC")]
+            else:
+                tags += [(0, "SECTION"), (2, n)]
+                for r in recs:
+                    tags += r
+                tags.append((0, "ENDSEC"))
+            if pos == "middle" and n == "TABLES":
+                for _, xr in self.extra_sections:
+                    for r in xr:
+                        tags += r
+                    tags.append((0, "ENDSEC"))
+        if pos != "middle":
+            for _, xr in self.extra_sections:
+                for r in xr:
+                    tags += r
+                tags.append((0, "ENDSEC"))
+        tags.append((0, "EOF"))
+        return tags
+
+
+def encode_ascii(tags) -> str:
+    return "".join(f"{c:3d}\n{v}\n" for c, v in tags)
+
+
+def encode_binary(tags, ver: str) -> bytes:
+    """harness-owned binary DXF writer (R2000+ framing: 2-byte group codes)"""
+    import struct
+
+    dxfparse = _import_dxfparse()
+    enc = "utf8" if ver >= "AC1021" else "cp1252"
+    out = [b"AutoCAD Binary DXF\r\n\x1a\x00"]
+    for c, v in tags:
+        out.append(struct.pack("<H", c))
+        k = dxfparse._cls(c)
+        if k == "bin":
+            b = bytes.fromhex(v)
+            assert len(b) <= 255
+            out.append(bytes([len(b)]) + b)
+        elif k == "b":
+            out.append(bytes([int(v)]))
+        elif k == "h":
+            out.append(struct.pack("<h", int(v)))
+        elif k == "i":
+            out.append(struct.pack("<i", int(v)))
+        elif k == "q":
+            out.append(struct.pack("<q", int(v)))
+        elif k == "d":
+            out.append(struct.pack("<d", float(v)))
+        else:
+            out.append(v.encode(enc) + b"\x00")
+    return b"".join(out)
+
+
+def ezdxf_cycle(ctx, tags, ver, fmt_in, fmt_out, tag):
+    """the real code: file on disk -> ezdxf.readfile -> saveas (same version) -> file on disk -> harness parser"""
+    import ezdxf
+
+    dxfparse = _import_dxfparse()
+    ezdxf.options.write_fixed_meta_data_for_testing = True
+    src = ctx.scratch / f"in-{tag}.dxf"
+    dst = ctx.scratch / f"out-{tag}.dxf"
+    if fmt_in == "bin":
+        src.write_bytes(encode_binary(tags, ver))
+    else:
+        src.write_text(encode_ascii(tags), encoding="utf8" if ver >= "AC1021" else "cp1252")
+    if tag.endswith("-stream") and fmt_in == "asc" and fmt_out == "asc":
+        # the text stream API: ezdxf.read(stream) / doc.write(stream)
+        enc = "utf8" if ver >= "AC1021" else "cp1252"
+        with open(src, "rt", encoding=enc, errors="surrogateescape") as fp:
+            doc = ezdxf.read(fp)
+        with open(dst, "wt", encoding=doc.output_encoding, errors="dxfreplace") as fp:
+            doc.write(fp)
+    else:
+        doc = ezdxf.readfile(str(src))
+        doc.saveas(str(dst), fmt=fmt_out)
+    if fmt_out == "bin":
+        out = dxfparse.parse_binary(dst.read_bytes())
+    else:
+        out = dxfparse.parse_ascii(dst.read_text(encoding="utf8" if ver >= "AC1021" else "cp1252"))
+    return out
+
+
+def split_base(rec):
+    """(base class tags after (0, type), rest from the first subclass / embedded object / XDATA marker)"""
+    for i, (c, v) in enumerate(rec):
+        if i and (c == 100 or c == 1001 or (c == 101 and v == "Embedded Object")):
+            return rec[1:i], rec[i:]
+    return rec[1:], []
+
+
+def base_items(base):
+    """handle / owner / closed 102-groups of a base class; None when something else occurs"""
+    items, i = [], 0
+    while i < len(base):
+        c, v = base[i]
+        if c == 102 and str(v).startswith("{"):
+            j = i + 1
+            while j < len(base) and not (base[j][0] == 102 and base[j][1] in ("}", v[1:] + "}")):
+                j += 1
+            if j >= len(base):
+                return None
+            items.append(("g", base[i:j + 1]))
+            i = j + 1
+        elif c in (5, 105):
+            items.append(("h", [base[i]]))
+            i += 1
+        elif c == 330:
+            items.append(("o", [base[i]]))
+            i += 1
+        else:
+            return None
+    return items
+
+
+def canon_record(rec):
+    """the documented base-class order of ezdxf: handle, application groups, extension dictionary, reactors (ascending), owner"""
+    base, rest = split_base(rec)
+    items = base_items(base)
+    if items is None:
+        return rec
+
+    def stage(it):
+        k, g = it
+        if k == "h":
+            return 0
+        if k == "o":
+            return 4
+        return 3 if g[0][1] == "{ACAD_REACTORS" else 2 if g[0][1] == "{ACAD_XDICTIONARY" else 1
+
+    out = [rec[0]]
+    for it in sorted(items, key=stage):
+        g = it[1]
+        if it[0] == "g" and g[0][1] == "{ACAD_REACTORS":
+            g = [g[0]] + sorted(g[1:-1], key=lambda t: int(t[1], 16)) + [g[-1]]
+        out += g
+    return out + rest
+
+
+def groups_of(rec):
+    """the closed 102-groups of the base class (other base-class tags, e.g. the name of a TABLE head, are skipped)"""
+    base, rest = split_base(rec)
+    out, i = [], 0
+    while i < len(base):
+        c, v = base[i]
+        if c == 102 and str(v).startswith("{"):
+            j = i + 1
+            while j < len(base) and not (base[j][0] == 102 and base[j][1] in ("}", v[1:] + "}")):
+                j += 1
+            out.append(base[i:j + 1])
+            i = j + 1
+        else:
+            i += 1
+    return out
+
+
+def xdata_of(rec):
+    for i, (c, v) in enumerate(rec):
+        if c == 1001:
+            return rec[i:]
+    return []
+
+
+def embedded_of(rec):
+    for i, (c, v) in enumerate(rec):
+        if c == 101 and v == "Embedded Object":
+            j = next((k for k in range(i, len(rec)) if rec[k][0] == 1001), len(rec))
+            return rec[i:j]
+    return []
+
+
+def index_file(tags):
+    dxfparse = _import_dxfparse()
+    secs, problems = dxfparse.split_file(tags)
+    byh, where = {}, {}
+    for n, recs in secs:
+        for r in recs:
+            h = dxfparse.rec_handle(r)
+            if h is not None and dxfparse.rec_type(r) not in ("<SECTION-TAGS>",):
+                byh[h] = r
+                where[h] = n
+    return secs, problems, byh, where
+
+
+def pointer_targets(rec):
+    return [(c, str(v)) for c, v in rec[1:] if is_pointer(c) and c not in (5, 105)]
+
+
+def header_custom(secs):
+    hdr = dict((n, r) for n, r in secs).get("HEADER", [[]])
+    flatt = [t for r in hdr for t in r]
+    out, names = [], []
+    for i, (c, v) in enumerate(flatt):
+        if c == 9:
+            names.append(v)
+            if v in ("$CUSTOMPROPERTYTAG", "$CUSTOMPROPERTY") and i + 1 < len(flatt):
+                out.append((v, flatt[i + 1][1]))
+    return out, names
+
+
+def check_file_case(ctx, sp: Splice, tags_in, out, label, rep):
+    """the property's predicate: everything ezdxf does not interpret is in `out` tag for tag and in order"""
+    dxfparse = _import_dxfparse()
+    fails = []
+
+    def fail(key, what):
+        fails.append(key)
+        ctx.fail(f"{key}/{label}", what[:700], rep)
+
+    secs_in, _, in_h, in_where = index_file(tags_in)
+    secs_out, problems, out_h, out_where = index_file(out)
+    for p in problems:
+        fail("file/structure", f"written file: {p}")
+    norm = dxfparse.norm
+    for kind, key, data in sp.expect:
+        if kind in ("record", "xrecord"):
+            r = out_h.get(norm(key))
+            if r is None:
+                fail(f"record-lost/{data[0][1]}", f"{data[0][1]} #{key} is not in the written file")
+                continue
+            want = ctags(canon_record(data))
+            got = ctags(r)
+            if got != want and kind == "xrecord" and sum(1 for c, _ in data if c == 100) > 1:
+                fail("xrecord-payload-100", f"XRECORD #{key}: payload with a group code 100 tag is truncated: {want[4:]} written as {got[4:]}")
+            elif got != want:
+                i = next((i for i, (a, b) in enumerate(zip(got, want)) if a != b), min(len(got), len(want)))
+                fail(f"record-changed/{data[0][1]}", f"{data[0][1]} #{key} differs at tag {i}: wrote {got[i:i + 3]} expected {want[i:i + 3]} "
+                     f"({len(got)} vs {len(want)} tags)")
+            if out_where.get(norm(key)) != in_where.get(norm(key)):
+                fail(f"record-moved/{data[0][1]}", f"#{key} moved from {in_where.get(norm(key))} to {out_where.get(norm(key))}")
+        elif kind == "host":
+            r = out_h.get(norm(key))
+            groups, xd = data
+            if r is None:
+                fail("host-lost", f"host entity #{key} is not in the written file")
+                continue
+            have = [t for g in groups_of(ctags(r)) for t in g]
+            if r[0][1] == "TABLE" and (have != ctags(groups) or xdata_of(ctags(r)) != ctags(xd)):
+                fail("table-head-data", f"TABLE head #{key}: groups {ctags(groups)[:10]} XDATA {ctags(xd)[:6]} written as {have[:10]} / {xdata_of(ctags(r))[:6]}")
+                continue
+            if have != ctags(groups):
+                fail(f"host-groups/{r[0][1]}", f"{r[0][1]} #{key}: base-class groups {ctags(groups)[:12]} written as {have[:12]}")
+            if xdata_of(ctags(r)) != ctags(xd):
+                fail(f"host-xdata/{r[0][1]}", f"{r[0][1]} #{key}: XDATA {ctags(xd)[:10]} written as {xdata_of(ctags(r))[:10]}")
+        elif kind == "dict-entry":
+            r = out_h.get(norm(key))
+            name, h = data
+            ok = r is not None and any(r[i] == (3, name) and r[i + 1][0] in (350, 360) and norm(r[i + 1][1]) == norm(h)
+                                       for i in range(len(r) - 1))
+            if not ok:
+                fail("dict-entry", f"DICTIONARY #{key}: entry {name} -> #{h} is not in the written file")
+        elif kind == "class":
+            want = ctags(data)
+            found = [ctags(r) for r in dict(secs_out).get("CLASSES", []) if (1, key[0]) in r and (2, key[1]) in r]
+            if want not in found:
+                fail("class-entry", f"CLASS {key}: {want} written as {found}")
+        elif kind == "custom":
+            got, names = header_custom(secs_out)
+            want = []
+            for k, v in data:
+                want += [("$CUSTOMPROPERTYTAG", k), ("$CUSTOMPROPERTY", v)]
+            if got != want:
+                fail(f"custom-props/{key}", f"custom header properties {want} written as {got} (mode {key}, $LASTSAVEDBY "
+                     f"{'written' if '$LASTSAVEDBY' in names else 'not written'})")
+        elif kind == "header-var":
+            got, names = header_custom(secs_out)
+            if key not in names:
+                fail("header-var-lost", f"unknown header variable {key} is not written")
+        elif kind == "section":
+            found = [(n, recs) for n, recs in secs_out if n == key]
+            if len(found) != 1:
+                fail(f"section-lost/{key}", f"section {key} occurs {len(found)} times in the written file")
+                continue
+            body = [t for r in found[0][1] for t in r if t[0] != 0 or t[1] != "<SECTION-TAGS>"]
+            want = ctags(data[2:])
+            if ctags(body) != want:
+                fail(f"section-changed/{key}", f"section {key}: {want[:8]}.. written as {ctags(body)[:8]}..")
+    # every other record of the input (ezdxf's own entities): uninterpreted parts are retained too
+    mine = {norm(k) for kind, k, _ in sp.expect if kind in ("record", "xrecord", "host")}
+    for h, r in in_h.items():
+        if h in mine or h not in out_h:
+            continue
+        a, b = ctags(r), ctags(out_h[h])
+        if xdata_of(a) != xdata_of(b):
+            fail(f"known-entity-xdata/{r[0][1]}", f"{r[0][1]} #{h}: XDATA {xdata_of(a)[:8]} written as {xdata_of(b)[:8]}")
+        if embedded_of(a) != embedded_of(b):
+            fail(f"known-entity-embedded/{r[0][1]}", f"{r[0][1]} #{h}: embedded object {embedded_of(a)[:8]} written as {embedded_of(b)[:8]}")
+        if groups_of(a) != groups_of(b):
+            fail(f"known-entity-groups/{r[0][1]}", f"{r[0][1]} #{h}: base-class groups {groups_of(a)} written as {groups_of(b)}")
+    for h in in_h:
+        if h not in out_h:
+            fail(f"handle-lost/{in_h[h][0][1]}", f"{in_h[h][0][1]} #{h} of the input is not in the written file")
+    # class order and section order
+    cls_in = [(dict(r).get(1), dict(r).get(2)) for r in dict(secs_in).get("CLASSES", [])]
+    cls_out = [(dict(r).get(1), dict(r).get(2)) for r in dict(secs_out).get("CLASSES", [])]
+    if [c for c in cls_out if c in cls_in] != cls_in:
+        fail("class-order", f"CLASS entries reordered or lost: {cls_in} -> {cls_out}")
+    names_out = [n for n, _ in secs_out]
+    unknown_in = [n for n, _ in secs_in if n not in dxfparse.ORDER_R2000 + ["ACDSDATA", "THUMBNAILIMAGE"]]
+    unknown_out = [n for n in names_out if n not in dxfparse.ORDER_R2000 + ["ACDSDATA"]]
+    if unknown_out != unknown_in and "section-lost" not in " ".join(fails):
+        fail("section-order", f"unknown sections {unknown_in} written as {unknown_out}")
+    managed_pos = [i for i, n in enumerate(names_out) if n in dxfparse.ORDER_R2000 + ["ACDSDATA"]]
+    if unknown_out and managed_pos and names_out.index(unknown_out[0]) < max(managed_pos):
+        fail("section-order", f"unknown section before a managed one: {names_out}")
+    # order of the retained records inside each layout / section
+    for n, recs in secs_in:
+        if n in ("ENTITIES", "BLOCKS", "OBJECTS"):
+            mine = [norm(k) for kind, k, _ in sp.expect if kind == "record" and in_where.get(norm(k)) == n]
+            inp = [dxfparse.rec_handle(r) for r in recs if dxfparse.rec_handle(r) in mine]
+            outp = [dxfparse.rec_handle(r) for r in dict(secs_out).get(n, []) if dxfparse.rec_handle(r) in mine]
+            owner = lambda h: dxfparse.base_refs(in_h[h])[0]
+            for o in sorted(set(owner(h) for h in inp)):
+                a = [h for h in inp if owner(h) == o]
+                bb = [h for h in outp if owner(h) == o]
+                if a != bb:
+                    fail(f"record-order/{n}", f"{n}: retained records of owner #{o} reordered: {a} -> {bb}")
+    # every retained handle keeps its record type; every pointer of a retained record resolves to the same type
+    for h, r in in_h.items():
+        if h in out_h and out_h[h][0][1] != r[0][1]:
+            fail("handle-retyped", f"handle #{h}: {r[0][1]} became {out_h[h][0][1]}")
+    for kind, key, data in sp.expect:
+        if kind in ("record", "xrecord"):
+            for c, v in pointer_targets(data):
+                t_in = in_h.get(norm(v))
+                t_out = out_h.get(norm(v))
+                if t_in is not None and (t_out is None or t_out[0][1] != t_in[0][1]):
+                    fail("pointer-dangling", f"#{key}: pointer ({c}, {v}) pointed to {t_in[0][1]}, now {t_out[0][1] if t_out else 'nothing'}")
+    return fails
+
+
+def file_cases(ctx, n, salt="files"):
+    rng = ctx.rng(salt)
+    for i in range(n):
+        ver = VERSIONS[i % len(VERSIONS)]
+        knobs = {
+            "shuffle": rng.choice([0.0, 0.2, 0.5]),
+            "mix": rng.random() < 0.5,
+            "custom": rng.choice(["after-lastsavedby", "after-lastsavedby", "at-end", "no-lastsavedby"]),
+            "section_pos": rng.choice(["end", "end", "middle"]),
+            "unknown_var": 0.25,
+        }
+        fmt_in = "bin" if (i // len(VERSIONS)) % 3 == 2 else "asc"
+        fmt_out = "bin" if (i // len(VERSIONS)) % 4 == 1 else "asc"
+        seed = rng.getrandbits(48)
+        yield i, ver, knobs, fmt_in, fmt_out, seed
+
+
+def run_file_case(ctx, i, ver, knobs, fmt_in, fmt_out, seed, second=True):
+    import random
+
+    rep = {"op": "file", "ver": ver, "knobs": knobs, "fmt_in": fmt_in, "fmt_out": fmt_out, "seed": seed}
+    label = f"{ver}/{fmt_in}->{fmt_out}"
+    try:
+        base_doc(ver)
+    except Exception as e:  # noqa
+        ctx.fail(f"file/base-document-raised/{type(e).__name__}/{ver}", f"ezdxf.new({ver}) + entities + write raised {type(e).__name__}: {e}"[:400], rep)
+        return None, None, None
+    sp = Splice(random.Random(seed), ver, **knobs)
+    tags_in = sp.build()
+    try:
+        out = ezdxf_cycle(ctx, tags_in, ver, fmt_in, fmt_out, "a-stream" if i % 5 == 0 else "a")
+    except Exception as e:  # noqa
+        ctx.fail(f"file/load-save-raised/{type(e).__name__}/{label}", f"ezdxf.readfile/saveas raised {type(e).__name__}: {e}"[:500], rep)
+        return sp, tags_in, None
+    fails = check_file_case(ctx, sp, tags_in, out, label, rep)
+    if second:
+        try:
+            out2 = ezdxf_cycle(ctx, out, ver, fmt_out, fmt_out, "b")
+        except Exception as e:  # noqa
+            ctx.fail(f"file/second-cycle-raised/{type(e).__name__}/{label}", f"second load-save raised {type(e).__name__}: {e}"[:500], rep)
+            return sp, tags_in, out
+        a, b = [(c, cval(c, v)) for c, v in out], [(c, cval(c, v)) for c, v in out2]
+        # $HANDSEED may only grow (loading an INSERT with attributes / a POLYLINE draws a handle for a temporary SEQEND)
+        ia = next((k for k, t in enumerate(a) if t == (9, "$HANDSEED")), None)
+        if ia is not None and ia + 1 < len(b) and b[ia] == a[ia] and int(str(b[ia + 1][1]), 16) >= int(str(a[ia + 1][1]), 16):
+            b[ia + 1] = a[ia + 1]
+        if a != b:
+            k = next((k for k, (x, y) in enumerate(zip(a, b)) if x != y), min(len(a), len(b)))
+            ctx.fail(f"file/second-cycle/{label}", f"second load-save changed the file at tag {k}: {a[max(0, k - 2):k + 3]} -> {b[max(0, k - 2):k + 3]}", rep)
+    return sp, tags_in, out
+
+
+def oracle(ctx):
+    import logging
+
+    logging.getLogger("ezdxf").setLevel(logging.CRITICAL)
+    n = ctx.n(240, 3000)
+    for case in file_cases(ctx, n):
+        i, ver, knobs, fmt_in, fmt_out, seed = case
+        sp, tags_in, out = run_file_case(ctx, *case)
+        ctx.count("O1 whole files", (ver, fmt_in, fmt_out, seed), True)
+        ctx.hist("O1 whole files", f"{ver}:{fmt_in}->{fmt_out}")
+        for kind, _, _ in (sp.expect if sp else []):
+            ctx.hist("O1 whole files", "retained:" + kind)
+
+
+# ------------------------------------------------------------------ X2: file structure and stored sections
+SEC_NAMES = ["HEADER", "CLASSES", "TABLES", "BLOCKS", "ENTITIES", "OBJECTS", "ACDSDATA", "THUMBNAILIMAGE", "FOO", "ACME_DATA", "X", "foo"]
+
+
+def gen_records(rng, malformed: bool):
+    recs = []
+    names = rng.sample(SEC_NAMES, rng.randint(0, 6))
+    if malformed and rng.random() < 0.3 and names:
+        names.append(rng.choice(names))  # duplicate section name
+    for n in names:
+        head = [(0, "SECTION"), (2, n)] + body_tags(rng, rng.choice([0, 0, 2]), [1, 70, 9, 40])
+        recs.append(head)
+        for _ in range(rng.randint(0, 3)):
+            recs.append([(0, rng.choice(["REC", "LINE", "CLASS", "section", "EOF ", "ENDSEC2"]))] + body_tags(rng, rng.randint(0, 3), [1, 5, 70, 330, 2]))
+        recs.append([(0, "ENDSEC")])
+    recs.append([(0, "EOF")])
+    if malformed:
+        for _ in range(rng.randint(1, 2)):
+            k = rng.randrange(9)
+            pos = rng.randint(0, len(recs))
+            if k == 0 and recs:
+                del recs[rng.randrange(len(recs))]
+            elif k == 1:
+                recs.insert(pos, [(0, "ENDSEC")])
+            elif k == 2:
+                recs.insert(pos, [(0, "SECTION"), (2, "LATE")])
+            elif k == 3:
+                recs.insert(pos, [(0, "SECTION")])
+            elif k == 4:
+                recs.insert(pos, [(0, "SECTION"), (70, "1"), (2, "N")])
+            elif k == 5:
+                recs.insert(pos, [(0, "EOF")])
+            elif k == 6:
+                recs.insert(pos, [(0, "STRAY"), (1, "outside")])
+            elif k == 7:
+                recs.insert(pos, [(0, "ENDSEC"), (1, "x")])
+            else:
+                recs.insert(pos, [(0, "SECTION"), (2, "")])
+    return recs
+
+
+def enc_recs(recs) -> str:
+    return "/".join(enc_tags(r) for r in recs)
+
+
+def impl_struct(recs):
+    """the real Drawing._load up to (not including) _load_section_dict: load_dxf_structure + section deletion"""
+    from ezdxf.document import Drawing
+    from ezdxf.lldxf.const import DXFStructureError
+    from ezdxf.lldxf.types import DXFTag
+
+    captured = {}
+    doc = Drawing.__new__(Drawing)
+    doc._load_section_dict = lambda sections: captured.update(sections=sections)
+    try:
+        Drawing._load(doc, iter([DXFTag(c, v) for r in recs for c, v in r]))
+    except DXFStructureError as e:
+        m = str(e)
+        k = ("missingEndsec" if "missing ENDSEC" in m else "endsecWithoutSection" if "without previous" in m else
+             "missingName" if "NAME tag" in m else "missingEof" if "missing EOF" in m else "other")
+        return "err " + k
+    return "ok " + ";".join(f"{cps(n)}={len(s)}" for n, s in captured["sections"].items())
+
+
+def correspond_structure(ctx):
+    rng = ctx.rng("structure")
+    cases = []
+    for i in range(ctx.n(1500, 12000)):
+        recs = gen_records(rng, malformed=i % 2 == 1)
+        ctx.hist("X2 file structure", "malformed" if i % 2 else "well-formed")
+        cases.append((f"struct|{enc_recs(recs)}", impl_struct(recs), len(recs) > 2))
+    ctx.correspond("X2 file structure", "C02", cases)
+    # stored sections through the whole real load -> save
+    dxfparse = _import_dxfparse()
+    cases = []
+    for case in file_cases(ctx, ctx.n(48, 300), salt="stored"):
+        i, ver, knobs, fmt_in, fmt_out, seed = case
+        import random
+
+        knobs = dict(knobs, entities=False, blocks=False, objects=False, hosts=False, classes=False, header=False)
+        sp = Splice(random.Random(seed), ver, **knobs)
+        tags_in = sp.build()
+        out = ezdxf_cycle(ctx, tags_in, ver, "asc", "asc", "s")
+        recs_in = [[(c, str(v)) for c, v in r] for r in dxfparse.records(tags_in)]
+        # the managed sections are a parameter of the model: their records are replaced by one stub record
+        short, skip = [], False
+        for r in recs_in:
+            if r[0] == (0, "SECTION"):
+                skip = r[1][1] in dxfparse.ORDER_R2000
+                short.append(r[:2] if skip else r)
+                if skip:
+                    short.append([(0, "STUB")])
+            elif r[0][1] in ("ENDSEC", "EOF"):
+                skip = False
+                short.append(r)
+            elif not skip:
+                short.append(r)
+        recs_out = dxfparse.records(out)
+        # tail of the real output: everything behind the last managed section
+        last = max(k for k, r in enumerate(recs_out) if r[0] == (0, "SECTION") and r[1][1] in dxfparse.ORDER_R2000 + ["ACDSDATA"])
+        end = next(k for k in range(last, len(recs_out)) if recs_out[k][0][1] == "ENDSEC")
+        tail = [t for r in recs_out[end + 1:] if r[0][1] != "EOF" for t in r]
+        # ACDSDATA is managed by AcDsDataSection in the real code: not part of the stored sections
+        impl = "ok " + enc_tags([(c, str(v)) for c, v in tail])
+        req = "sect|" + enc_recs(short)
+        cases.append((req, impl, any(k == "section" for k, _, _ in sp.expect)))
+    # compare on canonical values: the model echoes the input text, the real code re-formats numbers
+    outs = ctx.driver("C02", [c[0] for c in cases])
+    for (req, impl, nontriv), model in zip(cases, outs):
+        ctx.count("X2b stored sections (whole files)", req, nontriv, sample={"request": req[:200], "impl": impl[:200], "model": model[:200]})
+
+        def canon_line(line):
+            if not line.startswith("ok"):
+                return line
+            body = line[3:]
+            ts = []
+            for part in body.split(";") if body else []:
+                c, v = part.split(":")
+                c = int(c)
+                ts.append((c, cval(c, "".join(chr(int(x)) for x in v.split(" ")) if v else "")))
+            return ts
+
+        if canon_line(impl) != canon_line(model):
+            ctx.disagree("X2b stored sections (whole files)", req[:2000], impl[:1000], model[:1000])
+    ctx.cov["disagreements_checked"] += len(cases)
+
+
+# ------------------------------------------------------------------ X3: custom header properties and CLASS registration
+def correspond_header_classes(ctx):
+    from ezdxf.entities.dxfclass import DXFClass
+    from ezdxf.lldxf.tags import Tags
+    from ezdxf.lldxf.types import DXFTag
+    from ezdxf.sections.classes import ClassesSection
+    from ezdxf.sections.header import HeaderSection
+
+    rng = ctx.rng("header")
+    cases = []
+    vals = ["a", "b", "", "x y", "42", "$K"]
+    names = ["$ACADVER", "$LASTSAVEDBY", "$INSBASE", "$FOO", "$CUSTOMPROPERTYTAG", "$CUSTOMPROPERTY", "$CUSTOMPROPERTYTAG", "$CUSTOMPROPERTY"]
+    for _ in range(ctx.n(1500, 10000)):
+        groups = [("$ACADVER", "AC1024")]
+        for _ in range(rng.randint(0, 8)):
+            n = rng.choice(names)
+            groups.append((n, "AC1024" if n == "$ACADVER" else rng.choice(vals)))
+        if rng.random() < 0.5:  # well-formed pairs somewhere in between
+            k = rng.randint(0, len(groups))
+            pairs = []
+            for _ in range(rng.randint(1, 3)):
+                pairs += [("$CUSTOMPROPERTYTAG", rng.choice(vals)), ("$CUSTOMPROPERTY", rng.choice(vals))]
+            groups[k:k] = pairs
+        tags = [DXFTag(0, "SECTION"), DXFTag(2, "HEADER")]
+        for n, v in groups:
+            tags += [DXFTag(9, n), DXFTag(1, v)]
+        h = HeaderSection.load(Tags(tags))
+        impl = ";".join(f"{cps(a)}:{cps(b)}" for a, b in h.custom_vars)
+        req = "custom|" + ";".join(f"{cps(a)}:{cps(b)}" for a, b in groups)
+        cases.append((req, impl, any(n.startswith("$CUSTOM") for n, _ in groups)))
+        # where they are written
+        col = CompiledCollector("AC1024")
+        h.export_dxf(col)
+        written, exported = [], []
+        for i, (c, v) in enumerate(col.tags):
+            if c == 9:
+                if v in ("$CUSTOMPROPERTYTAG", "$CUSTOMPROPERTY"):
+                    written.append((v, col.tags[i + 1][1]))
+                else:
+                    exported.append(v)
+        req = "written|" + ";".join(cps(n) for n in exported) + "|" + ";".join(f"{cps(a)}:{cps(b)}" for a, b in h.custom_vars)
+        cases.append((req, ";".join(f"{cps(a)}:{cps(b)}" for a, b in written), len(h.custom_vars) > 0))
+    # CLASS registration
+    cn = ["FOO", "BAR", "MATERIAL", "X"]
+    cc = ["AcDbFoo", "AcDbBar", "AcDbMaterial"]
+    for _ in range(ctx.n(1000, 8000)):
+        keys = [(rng.choice(cn), rng.choice(cc)) for _ in range(rng.randint(0, 8))]
+        sec = ClassesSection()
+        for n, c in keys:
+            sec.register(DXFClass.new(dxfattribs={"name": n, "cpp_class_name": c}))
+        impl = ";".join(f"{cps(k[0])}:{cps(k[1])}" for k in sec.classes)
+        cases.append(("classes|" + ";".join(f"{cps(a)}:{cps(b)}" for a, b in keys), impl, len(set(keys)) < len(keys)))
+    ctx.correspond("X3 header custom properties, CLASS keys", "C02", cases)
+
+
+def correspond(ctx):
+    import logging
+
+    logging.getLogger("ezdxf").setLevel(logging.CRITICAL)
+    correspond_entities(ctx)
+    correspond_structure(ctx)
+    correspond_header_classes(ctx)
+
+
+def replay(ctx, rep):
+    """re-run the recorded failing inputs on the current code"""
+    import logging
+    import random
+
+    logging.getLogger("ezdxf").setLevel(logging.CRITICAL)
+    before = len(ctx.failures)
+    for f in rep.get("failing_inputs", []):
+        r = f["replay"]
+        if r.get("op") == "file":
+            run_file_case(ctx, 1, r["ver"], r["knobs"], r["fmt_in"], r["fmt_out"], r["seed"])
+        elif r.get("op") == "entity":
+            tags = [tuple(t) for t in r["tags"]]
+            out1, r1 = impl_roundtrip(tags, r["alive"])
+            spec = ctx.driver("C02", ["spec|" + ",".join(cps(h) for h in r["alive"]) + "|" + enc_tags(tags)])[0]
+            flags, canon = spec.split("|", 1)
+            if flags.startswith("1") and r1 != "ok " + canon:
+                ctx.fail(f"storage/canon/{tags[:5]}", f"export(load t) != canon t: {r1[:200]}", r)
+            if out1 is not None and impl_roundtrip(out1, r["alive"])[1] != r1:
+                ctx.fail(f"storage/second-cycle/{tags[:5]}", "second cycle differs", r)
+    bad = [f.key for f in ctx.failures[before:]]
+    return (not bad, "; ".join(bad)[:600] or "all recorded failing inputs pass now")
